@@ -559,7 +559,8 @@ impl DocGen {
             }
             16 => {
                 let id = self.ident();
-                let levels = self.shape.range(8, 40);
+                // mostly 8-40 levels; sometimes far deeper (hundreds of tree levels)
+                let levels = if self.shape.chance(0.2) { self.shape.range(60, 160) } else { self.shape.range(8, 40) };
                 let e = self.deep(levels);
                 format!("#let {} = {}", id, e)
             }
